@@ -881,6 +881,23 @@ func (m *M) checkFault(b, route string, a Args, pre *snapshot, r *world.Result, 
 			m.violate("C08", "storage-error-status", fmt.Sprintf("the user could not be loaded (storage error): status %d instead of 500", r.Status), b)
 		}
 	}
+	// the SMS sender failed: every caller of SendCodeToUser hands the error on, so the request
+	// ends with the error handler's outcome (500, or with the silent default handler: nothing at all)
+	errOutcome := r.Status == 500 || (!cfg.Err500 && r.Location == "" && len(r.Pages) == 0 && strings.TrimSpace(r.Body) == "")
+	// the tokens of the remember cookies could not be deleted after a password reset: the old
+	// cookies still log in, so the request must not report the reset as done
+	if route == "recend" && call == "DelRememberTokens" && !errOutcome {
+		for pid, u0 := range pre.users {
+			if u1 := m.W.Store.Users[pid]; u1 != nil && u1.Password != u0.Password && len(m.W.Store.Tokens[pid]) >= len(pre.tokens[pid]) {
+				m.violate("C18", "fake-success:reset-tokens", fmt.Sprintf("deleting the remember tokens of %q failed (backend call %d) after its password was reset, yet the response is not an error outcome: status %d location %q", pid, f.At, r.Status, r.Location), b)
+			}
+		}
+	}
+	if call == "SMS" {
+		if !errOutcome {
+			m.violate("C18", "fake-success:sms", fmt.Sprintf("the SMS sender failed (backend call %d) in a %s request, yet the response is not an error outcome: status %d location %q pages %v", f.At, route, r.Status, r.Location, r.Pages), b)
+		}
+	}
 	// (C17 under faults) nothing the harness typed or was shown may turn up in a log line
 	m.scanLogs(r, b)
 	m.checkMailRecipients(r, b)
